@@ -27,6 +27,10 @@ inductive Cond
   | lookupdMode              -- `len(opts.NSQLookupdHTTPAddresses) != 0`
   | notifyOn                 -- `opts.NotificationHTTPEndpoint != ""` (inside notifyAdminAction)
   | other (txt : String)     -- anything else (text of the Go expression): arbitrary truth value
+  | identityDep (txt : String) -- a test that reads the request headers / the admin list / the ACL header name /
+                             -- a variable holding the outcome of the admin check, other than the bare check
+                             -- (`u := req.Header.Get(h); if u != "alice"`): arbitrary truth value, and
+                             -- *no* judgement below treats it as independent of the identity
 deriving DecidableEq, Repr
 
 /-- An effect of a handler. -/
@@ -78,14 +82,22 @@ structure Conf where
   notifyOn   : Bool
 deriving Repr
 
-/-- `textproto.CanonicalMIMEHeaderKey` on ASCII token names: first letter and every letter
-after '-' upper case, the rest lower case. -/
+/-- `validHeaderFieldByte` of net/textproto: the token characters of RFC 7230. -/
+def isTokenByte (b : Nat) : Bool :=
+  (48 ≤ b && b ≤ 57) || (65 ≤ b && b ≤ 90) || (97 ≤ b && b ≤ 122) ||
+  b == 33 || b == 35 || b == 36 || b == 37 || b == 38 || b == 39 || b == 42 || b == 43 || b == 45 ||
+  b == 46 || b == 94 || b == 95 || b == 96 || b == 124 || b == 126
+
 def canonChars : Bool → List Char → List Char
   | _, [] => []
   | up, c :: cs =>
     (if up then c.toUpper else c.toLower) :: canonChars (c == '-') cs
 
-def canon (s : String) : String := String.ofList (canonChars true s.toList)
+/-- `textproto.CanonicalMIMEHeaderKey`: a name made of token characters only gets its first letter and every
+letter after '-' in upper case, the rest in lower case; a name that contains anything else (a space, a
+non-ASCII byte, …) is returned **unchanged**. Tied to the real function by the `strfn` correspondence stream. -/
+def canon (s : String) : String :=
+  if s.toList.all (fun c => isTokenByte c.toNat) then String.ofList (canonChars true s.toList) else s
 
 /-- The request as the handler sees it. Header names are as received by `net/http`
 (canonical form); `Header.Get` returns the first value of the canonicalised key or "". -/
@@ -138,6 +150,7 @@ def evalCond (env : Env) (st : St) : Cond → Bool
   | .lookupdMode => env.conf.lookupdMode
   | .notifyOn => env.conf.notifyOn
   | .other t => env.otherCond t
+  | .identityDep t => env.otherCond t
 
 def doEff (env : Env) (st : St) : Eff → St
   | .decodeBody => { obs := .bodyRead :: st.obs, err := if env.bodyOk then .none else .full }
@@ -176,6 +189,7 @@ def authFree : Skel → Bool
   | .ret _ => true
   | .eff _ k => authFree k
   | .ite .notAdmin _ _ => false
+  | .ite (.identityDep _) _ _ => false
   | .ite _ t e => authFree t && authFree e
   | .unknown _ => false
 
@@ -218,6 +232,90 @@ def paths : Skel → List (List (Cond × Bool) × List Eff × Nat)
     (paths e).map (fun p => ((c, false) :: p.1, p.2.1, p.2.2))
   | .unknown _ => [([], [], unknownStatus)]
 
+
+/-! ### "State-changing" by effect (audit C18)
+
+Which upstream calls can change the cluster is read off the code, not off the HTTP method of the nsqadmin
+route: the table `tbl` (regenerated, `Nsq.Gen.AdminRoutes.upstreamWrites`) says for every method of
+`ClusterInfo` / `http_api.Client` whether it can send a request that is not a GET. A name that is not in the
+table counts as a write. -/
+
+def writesOf (tbl : List (String × Bool)) (n : String) : Bool :=
+  match tbl.find? (fun kv => kv.1 == n) with
+  | some kv => kv.2
+  | none => true
+
+/-- Effects that change something outside the handler: a writing upstream call, a notification, a
+configuration write. -/
+def Eff.isWrite (tbl : List (String × Bool)) : Eff → Bool
+  | .upstream n => writesOf tbl n
+  | .upstreamMany n => writesOf tbl n
+  | .notify _ => true
+  | .configWrite => true
+  | _ => false
+
+def Obs.isWrite (tbl : List (String × Bool)) : Obs → Bool
+  | .upstream n => writesOf tbl n
+  | .notify _ => true
+  | .configWrite => true
+  | .bodyRead => false
+
+/-- Can any path of the skeleton perform a write? (`unknown` counts as "yes".) -/
+def canWrite (tbl : List (String × Bool)) : Skel → Bool
+  | .ret _ => false
+  | .unknown _ => true
+  | .eff e k => e.isWrite tbl || canWrite tbl k
+  | .ite _ t e => canWrite tbl t || canWrite tbl e
+
+/-! ### The action is reached (audit C19)
+
+`reaches V errNone rem sk`: walk the skeleton the way a *well-formed request with an admin identity* does —
+the admin check passes, the body decodes (`errNone` = the latest err-producing effect was the body decode, so
+`err` is known to be nil), every validation test listed in `V` passes, and the body's action is one of
+`rem` (`none` = the handler is not asked about it) — taking **both** branches of every other test. Every leaf
+met must be an answer 200 or 502. A `return 400` slipped in behind the check (under a condition that is not a
+listed validation, or unconditionally) makes this false. -/
+def reaches (V : List String) : Bool → Option (List String) → Skel → Bool
+  | _, _, .ret c => c == 200 || c == 502
+  | _, _, .unknown _ => false
+  | _, rem, .eff .decodeBody k => reaches V true rem k
+  | _, rem, .eff .readBody k => reaches V true rem k
+  | _, rem, .eff (.upstream _) k => reaches V false rem k
+  | _, rem, .eff (.upstreamMany _) k => reaches V false rem k
+  | _, rem, .eff (.localCall _) k => reaches V false rem k
+  | en, rem, .eff (.notify _) k => reaches V en rem k
+  | en, rem, .eff .configWrite k => reaches V en rem k
+  | en, rem, .eff (.pureCall _) k => reaches V en rem k
+  | en, rem, .ite c t e =>
+    match c, en, rem with
+    | .notAdmin, _, _ => reaches V en rem e
+    | .errNotNil, true, _ => reaches V en rem e
+    | .errNotPartial, true, _ => reaches V en rem e
+    | .other s, _, _ =>
+      if V.contains s then reaches V en rem e else reaches V en rem t && reaches V en rem e
+    | .actionIs a, _, some as =>
+      (!as.contains a || reaches V en (some [a]) t) &&
+        ((as.filter (· != a)).isEmpty || reaches V en (some (as.filter (· != a))) e)
+    | _, _, _ => reaches V en rem t && reaches V en rem e
+
+/-- What a well-formed request is, per mutating handler: the validation tests it passes (Go text of the
+refusing condition) and the actions its body may name. -/
+structure Valid where
+  others : List String
+  actions : Option (List String)
+deriving Repr
+
+def validOf (handler : String) : Valid :=
+  if handler == "createTopicChannelHandler" then
+    ⟨["!protocol.IsValidTopicName(body.Topic)", "!protocol.IsValidChannelName(body.Channel)"], none⟩
+  else if handler == "tombstoneNodeForTopicHandler" then ⟨["!protocol.IsValidTopicName(body.Topic)"], none⟩
+  else if handler == "topicActionHandler" || handler == "channelActionHandler" then
+    ⟨[], some ["pause", "unpause", "empty"]⟩
+  else ⟨[], none⟩
+
+def adminReaches (handler : String) (sk : Skel) : Bool :=
+  reaches (validOf handler).others false (validOf handler).actions sk
+
 def lookupHandler (hs : List (String × Skel)) (name : String) : Option Skel :=
   match hs.find? (fun kv => kv.1 == name) with
   | some kv => some kv.2
@@ -230,5 +328,12 @@ def Route.mutating (r : Route) : Bool :=
 def Route.isConfig (r : Route) : Bool := r.segs.head? == some "config"
 
 def Route.readOnly (r : Route) : Bool := r.method == "GET"
+
+/-- The conditional graphite reverse proxy (`GET /render`, registered only with `--proxy-graphite`): not a
+handler of `httpServer`; it forwards the GET it received to the configured graphite URL. -/
+def Route.isProxy (r : Route) : Bool := r.handler == "expr:proxy"
+
+/-- A GET route outside `/config` that is served by an extracted handler (views, pages, static files). -/
+def Route.plainGet (r : Route) : Bool := r.method == "GET" && !r.isConfig && !r.isProxy
 
 end Nsq.Model.AdminGate
